@@ -4,6 +4,9 @@ import numpy as np
 from iOpt.trial import Point, FunctionValue, FunctionType
 
 
+HIGH_DIMS = (16, 31, 32, 33, 64, 100)      # "any dimension": a few large ones beside 1..12
+
+
 def all_keys():
     keys = []
     keys += [("hill", k) for k in range(1000)]
@@ -11,8 +14,8 @@ def all_keys():
     keys += [("grishagin", k) for k in range(1, 101)]
     keys += [("gkls", n, k) for n in (2, 3, 4, 5) for k in range(1, 101)]
     keys += [("shekel4", k) for k in (1, 2, 3)]
-    keys += [("rastrigin", d) for d in range(1, 13)]
-    keys += [("xsquared", d) for d in range(1, 13)]
+    keys += [("rastrigin", d) for d in list(range(1, 13)) + list(HIGH_DIMS)]
+    keys += [("xsquared", d) for d in list(range(1, 13)) + list(HIGH_DIMS)]
     keys += [("stronginc3",)]
     return keys
 
